@@ -504,6 +504,7 @@ func runC14(c *Ctx) {
 	}
 	c14PrefixNotPath(c, stPkgs)
 	c14CloseOnce(c, stPkgs)
+	ruleDelegateErr(c, "DELEGATE-ERR", stPkgs)
 	ruleOpenTruncates(c, "OPEN-TRUNCATES")
 	// a failed put must not change the map: the disk bucket's atomic writer (shared with C15)
 	c15AtomicWriter(c)
